@@ -188,7 +188,11 @@ func (b *Buffer) ReadTime() time.Time {
 		return time.Time{}
 	}
 	// decode time in "100 nanosecond intervals since January 1, 1601" manner.
-	return time.Unix(0, int64((ts-116444736000000000)*100)).UTC()
+	// The tick count is split into seconds and nanoseconds since a count of
+	// nanoseconds overflows an int64 for dates outside of 1677..2262,
+	// e.g. 9999-12-31 which is used for "does not expire".
+	ticks := int64(ts)
+	return time.Unix(ticks/1e7-11644473600, (ticks%1e7)*100).UTC()
 }
 
 func (b *Buffer) ReadN(n int) []byte {
@@ -312,7 +316,10 @@ func (b *Buffer) WriteTime(v time.Time) {
 	d := make([]byte, 8)
 	if !v.IsZero() {
 		// encode time in "100 nanosecond intervals since January 1, 1601"
-		ts := uint64(v.UTC().UnixNano()/100 + 116444736000000000)
+		// from seconds and nanoseconds since UnixNano is only defined for
+		// dates between 1677 and 2262.
+		u := v.UTC()
+		ts := uint64(u.Unix()*1e7 + int64(u.Nanosecond()/100) + 116444736000000000)
 		binary.LittleEndian.PutUint64(d, ts)
 	}
 	b.Write(d)
